@@ -27,7 +27,10 @@ LEVEL = ("sibling / guard rules: (1) every get_type_string implementation evalua
          "parameters rejected on every path; (6) mandatory attributes are declared before defaulted ones (passes in execution order); "
          "(7) required/default are never changed in place; (8) every function that hands on the requiredness of the declaration it was "
          "given does so on every path to a successful return (statement CFG; keyword, position, keyword dictionary, alias local, or "
-         "the declaration itself handed to a forwarder).")
+         "the declaration itself handed to a forwarder); (9) decode direction: the Python code each kind's construct macro generates "
+         "for a non-required property (per valuation of the template conditions, macro calls followed, placeholders for destination / "
+         "source / unknown) is parsed and run abstractly on the path where the source is UNSET: the destination ends as the source / "
+         "UNSET, never as a fresh value.")
 
 TEMPLATE_DIR = "property_templates/"
 
@@ -53,6 +56,10 @@ def run(rep: Report, ctx: Any) -> str:
                       "`<parameter>.required`) does so on every path: no return of a value that is not an error is reached without "
                       "a call / keyword dictionary that receives it - a result taken from a cache or registry, or built with a "
                       "constant, carries some other declaration's requiredness")
+    rep.rule("R10.9", "decoding keeps 'absent' absent: in the code a kind's `construct` macro (and from_dict's own fallback) generates for "
+                      "a property that is not required, on the path where the popped source is the UNSET sentinel the local handed to "
+                      "`cls(...)` ends up as the source / UNSET itself - never as a fresh value (a literal, a constant, the result of a "
+                      "call); decided on the generated text per valuation of the template conditions, macro calls followed")
     rep.rule("R10.4", "the union parser returns None before trying any member exactly when None is among its JSON types; "
                       "handle_nullable covers type scalar / type list / oneOf / anyOf / allOf")
     rep.rule("R10.5", "query parameters are dropped only by identity with UNSET or None; a cookie or header is written outside the block "
@@ -136,7 +143,8 @@ def run(rep: Report, ctx: Any) -> str:
                       f"text emitted for required properties mentions Unset/UNSET: {unguarded_unset[:2]}",
                       where=f"{PKG}/templates/{tn}:{m.lineno}", lhs=unguarded_unset[:2], rhs="no Unset handling when required")
             opt = "".join(texts_opt)
-            has_guard = bool(re.search(r"isinstance\([^)]*,\s*Unset\)", opt)) or "isinstance(" in opt and "Unset" in opt
+            # (an identity test with the singleton asks the same as the instance test of its class)
+            has_guard = bool(re.search(r"isinstance\([^)]*,\s*Unset\)|\bis (not )?UNSET\b", opt)) or "isinstance(" in opt and "Unset" in opt
             if mn == "guarded_statement":
                 rep.check(has_guard, "R10.2", key + "::optional-arm", "optional arm has no isinstance(..., Unset) guard",
                           where=f"{PKG}/templates/{tn}:{m.lineno}", lhs=opt.strip()[:80], rhs="isinstance(source, Unset)")
@@ -348,6 +356,81 @@ def run(rep: Report, ctx: Any) -> str:
                   where(f, bad_returns[0] if bad_returns else f.node), lhs=[f"line {r.lineno}: {norm(r)[:70]}" for r in bad_returns][:3],
                   rhs="required=<the declaration's> on every path to a successful return")
     rep.floor("requiredness_forwarders", n_fw, 10)
+
+    # ---- R10.9 the UNSET source passes through the decoder ------------------------------------------------------------------------
+    # from_dict pops an optional key with the UNSET default (R10.3) and hands `<python_name>` to cls(...).  What lies between is the
+    # kind's `construct` macro, or a plain assignment when the kind has none.  For every valuation of the template conditions with
+    # `property.required` false the generated statements are put together (the destination, the source and everything unknown
+    # as placeholders), parsed as Python and run abstractly on the path on which the source is UNSET: isinstance(..., Unset) /
+    # `is UNSET` tests are decided, UNSET is falsy, cast() is the identity, a function the fragment defines is entered.
+    types_t = jx.templates.get("types.py.jinja")
+    unset_falsy = bool(types_t and re.search(r"class Unset\b[^\n]*:\s*\n(?:\s+[^\n]*\n)*?\s+def __bool__\(self\)[^\n]*:\s*\n\s+return False\b", types_t.src))
+    n_dec = 0
+
+    def unset_atom(atom: str, required_atom: str) -> "bool | None":
+        """`'Unset' in <property>.<method>(...)` for a property that is not required, as far as the method's paths say"""
+        m_ = re.match(r"^'Unset' in " + re.escape(required_atom[: -len(".required")]) + r"\.(\w+)\((.*)\)$", atom)
+        if not m_ or re.search(r"no_optional=(?!False)", m_.group(2)):
+            return None
+        impls = [(c_, c_.methods[m_.group(1)]) for c_ in [proto] + ix.property_classes() if m_.group(1) in c_.methods]
+        got = {v for c_, f_ in impls for v in pe.outcomes(f_, c_, {"no_optional": False, "self.required": False}, "Unset")}
+        return True if impls and got == {True} else None
+
+    def decode_check(key: str, frs_: list[tuple[int, tplq.Frag]], tev_: "_TplEval", role: Any, required_atom: str, at_: str) -> None:
+        nonlocal n_dec
+        names_: list[str] = [required_atom]
+        for i_, fr in frs_:
+            for a in _guard_atoms(fr) + (tev_.atoms(fr.expr, i_) if fr.kind == "expr" else []):
+                if a not in names_:
+                    names_.append(a)
+        fixed = {required_atom: False}
+        for a in names_:
+            v = unset_atom(a, required_atom)
+            if v is not None:
+                fixed[a] = v
+        free = [a for a in names_ if a not in fixed]
+        rep.require(len(free) <= 12, f"a decoder that depends on at most 12 conditions ({key})")
+        fresh: list[str] = []
+        assigned = parsed = 0
+        for env0 in tplq.assignments(free):
+            env = {**env0, **fixed}
+            text = "".join(_gen_text(fr, i_, env, tev_, role) for i_, fr in frs_ if fr.kind != "set" and _guard_holds(fr, env))
+            try:
+                import textwrap
+
+                tree_ = ast.parse(textwrap.dedent(text))
+            except SyntaxError:
+                continue
+            parsed += 1
+            vals = _GenRun(unset_falsy).result(tree_, DEST)
+            assigned += bool(vals)
+            for v in sorted(vals):
+                if v.startswith("FRESH:") and v[6:] not in fresh:
+                    fresh.append(v[6:])
+        rep.require(parsed, f"generated code of {key} that parses as Python for some valuation")
+        if not assigned:
+            return   # nothing is assigned here: the decoder is elsewhere
+        n_dec += 1
+        rep.check(not fresh, "R10.9", key, f"for a property that is not required, an absent key (source UNSET) is decoded to a fresh value "
+                  f"({', '.join(fresh[:3])}) instead of UNSET: 'absent' reads back as 'present'", where=at_, lhs=fresh[:3],
+                  rhs="the source / UNSET itself on the UNSET path")
+
+    for tn, ti in sorted(jx.templates.items()):
+        m = ti.macros.get("construct") if tn.startswith(TEMPLATE_DIR) else None
+        if m is None:
+            continue
+        cfr = list(enumerate(_frags(m.body, ti, jx, sets=True)))
+        decode_check(f"{tn}::construct::unset-passes-through", cfr, _TplEval([fr for _, fr in cfr]),
+                     lambda e, t, i_, tev_: DEST if t == "property.python_name" else SOURCE if t == "source" else None,
+                     "property.required", f"{PKG}/templates/{tn}:{m.lineno}")
+    # from_dict itself: the loop that pops the keys
+    for inst in list(dict.fromkeys(id(f_[3].insts[-1]) for f_ in forms)):
+        lfr = [(i, fr) for i, fr in enumerate(allfr) if fr.insts and any(id(x) == inst for x in fr.insts)]
+        pv = f"{lfr[0][1].loops[-1]}[*]"
+        decode_check("model.py.jinja::from_dict::unset-passes-through", lfr, tev,
+                     lambda e, t, i_, tev_, pv=pv: DEST if t == f"{pv}.python_name" else SOURCE if "d.pop(" in tev_.reads(e, i_) else None,
+                     f"{pv}.required", f"{PKG}/templates/model.py.jinja:{lfr[0][1].line}")
+    rep.floor("decoders_checked", n_dec, 5)
 
     # ---- R10.4 ---------------------------------------------------------------------------------------------------------
     ut = jx.templates.get(TEMPLATE_DIR + "union_property.py.jinja")
@@ -1026,6 +1109,217 @@ def _peel_selection(it: nodes.Node) -> "tuple[nodes.Node, list[tuple[str, str | 
     if not picks:
         return it, []
     return n, picks[::-1]
+
+
+DEST, SOURCE, UNKNOWN = "DEST_", "SOURCE_", "HOLE_"   # placeholders in the generated code: destination local, popped source, anything else
+
+
+def _gen_text(fr: tplq.Frag, at: int, env: dict[str, bool], tev: "_TplEval", role: Any) -> str:
+    """the generated code a fragment contributes under env: template text as it stands; an output expression as the placeholder of
+    its role, else the text it is put together from (string constants, `~` / `+`, the selected arm of a conditional expression, a
+    `set` variable as its definition), UNKNOWN for the rest"""
+    if fr.kind == "data":
+        return fr.text
+
+    def rec(e: Any, at_: int, depth: int) -> str:
+        r = role(e, expr_text(e), at_, tev)
+        if r is not None:
+            return r
+        if isinstance(e, nodes.Const):
+            return e.value if isinstance(e.value, str) else repr(e.value)
+        if isinstance(e, nodes.TemplateData):
+            return e.data
+        if isinstance(e, nodes.CondExpr):
+            if not all(a in env for a in _atoms(e.test)):
+                return UNKNOWN
+            arm = e.expr1 if _eval(e.test, env) else e.expr2
+            return rec(arm, at_, depth) if arm is not None else ""
+        if isinstance(e, nodes.Concat):
+            return "".join(rec(x, at_, depth) for x in e.nodes)
+        if isinstance(e, nodes.Add):
+            return rec(e.left, at_, depth) + rec(e.right, at_, depth)
+        if isinstance(e, nodes.Filter) and e.node is not None and e.name in ("indent", "trim", "safe", "string"):
+            return rec(e.node, at_, depth)
+        if isinstance(e, nodes.Name) and depth < _TplEval.DEPTH:
+            live = [(i, d) for i, d in tev._reaching(e.name, at_) if all(a in env for a in _guard_atoms(d)) and _guard_holds(d, env)]
+            if live:
+                return rec(live[-1][1].expr, live[-1][0], depth + 1)   # type: ignore[attr-defined]
+        return UNKNOWN
+
+    return rec(fr.expr, at, 0)   # type: ignore[attr-defined]
+
+
+class _GenRun:
+    """Abstract run of a piece of generated Python on the path on which SOURCE is the UNSET sentinel.  A value is "SRC" (the source /
+    UNSET itself), "FRESH:<text>" (made here: literal, constant, result of a call) or "UNK".  Tests that ask whether a value is
+    the sentinel are decided, everything else goes both ways; loops run zero times or once; a function defined in the piece is
+    entered when it is called."""
+
+    LIMIT = 64
+
+    def __init__(self, unset_falsy: bool):
+        self.unset_falsy = unset_falsy
+        self.funcs: dict[str, ast.FunctionDef] = {}
+
+    def result(self, tree: ast.Module, var: str) -> set[str]:
+        out: set[str] = set()
+        for env in self.block(tree.body, [{}], [], 0):
+            out |= env.get(var, set())
+        return out
+
+    # -- statements
+    def block(self, stmts: list[ast.stmt], states: list[dict], rets: list[set], depth: int) -> list[dict]:
+        for st in stmts:
+            nxt: list[dict] = []
+            for env in states:
+                nxt += self.stmt(st, env, rets, depth)
+            states = nxt[: self.LIMIT]
+        return states
+
+    def stmt(self, st: ast.stmt, env: dict, rets: list[set], depth: int) -> list[dict]:
+        if isinstance(st, (ast.FunctionDef, ast.AsyncFunctionDef)):
+            self.funcs[st.name] = st   # type: ignore[assignment]
+            return [env]
+        if isinstance(st, (ast.Assign, ast.AnnAssign)):
+            if st.value is None:
+                return [env]
+            v = self.value(st.value, env, depth)
+            env2 = dict(env)
+            for t in (st.targets if isinstance(st, ast.Assign) else [st.target]):
+                if isinstance(t, ast.Name):
+                    env2[t.id] = v
+                elif isinstance(t, (ast.Tuple, ast.List)):
+                    for x in t.elts:
+                        if isinstance(x, ast.Name):
+                            env2[x.id] = {"UNK"}
+            return [env2]
+        if isinstance(st, ast.If):
+            t_ = self.test(st.test, env, depth)
+            out: list[dict] = []
+            if t_ is not False:
+                out += self.block(st.body, [env], rets, depth)
+            if t_ is not True:
+                out += self.block(st.orelse, [env], rets, depth)
+            return out
+        if isinstance(st, (ast.For, ast.AsyncFor, ast.While)):
+            if isinstance(st, ast.While) and self.test(st.test, env, depth) is False:
+                return [env]
+            env2 = dict(env)
+            if not isinstance(st, ast.While):
+                for x in ast.walk(st.target):
+                    if isinstance(x, ast.Name):
+                        env2[x.id] = {"UNK"}
+            return [env] + self.block(st.body, [env2], rets, depth)
+        if isinstance(st, ast.Try):
+            out = self.block(st.body, [env], rets, depth)
+            if st.orelse:
+                out = self.block(st.orelse, out, rets, depth)
+            for h in st.handlers:
+                out += self.block(h.body, [env], rets, depth)
+            return self.block(st.finalbody, out, rets, depth) if st.finalbody else out
+        if isinstance(st, (ast.With, ast.AsyncWith)):
+            return self.block(st.body, [env], rets, depth)
+        if isinstance(st, ast.Match):
+            out = [env]
+            for c in st.cases:
+                out += self.block(c.body, [env], rets, depth)
+            return out
+        if isinstance(st, ast.Return):
+            rets.append(self.value(st.value, env, depth) if st.value is not None else {"FRESH:None"})
+            return []
+        if isinstance(st, ast.Raise):
+            return []
+        return [env]
+
+    # -- values
+    def value(self, e: ast.expr, env: dict, depth: int) -> set[str]:
+        if isinstance(e, ast.Name):
+            if e.id in (SOURCE, "UNSET"):
+                return {"SRC"}
+            if e.id == UNKNOWN:
+                # a template expression in value position that is not the source (a default, a constant of the document, ...)
+                return {"FRESH:<template expression>"}
+            return set(env.get(e.id, {"UNK"}))
+        if isinstance(e, ast.NamedExpr):
+            return self.value(e.value, env, depth)
+        if isinstance(e, ast.Call):
+            fn = norm(e.func)
+            if fn in ("cast", "typing.cast") and len(e.args) == 2:
+                return self.value(e.args[1], env, depth)
+            if isinstance(e.func, ast.Name) and e.func.id in self.funcs and depth < 3:
+                f = self.funcs[e.func.id]
+                env2 = dict(env)
+                ps = [a.arg for a in [*f.args.posonlyargs, *f.args.args]]
+                for p_, a in zip(ps, e.args):
+                    env2[p_] = self.value(a, env, depth)
+                for kw in e.keywords:
+                    if kw.arg:
+                        env2[kw.arg] = self.value(kw.value, env, depth)
+                rets: list[set] = []
+                ends = self.block(f.body, [env2], rets, depth + 1)
+                out = set().union(*rets) if rets else set()
+                return out | ({"FRESH:None"} if ends else set()) or {"UNK"}
+            if UNKNOWN in fn:
+                return {"UNK"}
+            return {"FRESH:" + norm(e)[:40]}
+        if isinstance(e, ast.Constant):
+            return {"FRESH:" + repr(e.value)[:40]}
+        if isinstance(e, (ast.List, ast.Tuple, ast.Dict, ast.Set, ast.ListComp, ast.DictComp, ast.SetComp, ast.GeneratorExp, ast.JoinedStr)):
+            return {"FRESH:" + norm(e)[:40]}
+        if isinstance(e, ast.IfExp):
+            t_ = self.test(e.test, env, depth)
+            out: set[str] = set()
+            if t_ is not False:
+                out |= self.value(e.body, env, depth)
+            if t_ is not True:
+                out |= self.value(e.orelse, env, depth)
+            return out
+        if isinstance(e, ast.BoolOp):
+            vals = [self.value(v, env, depth) for v in e.values]
+            if isinstance(e.op, ast.Or):
+                # `a or b` is b when a is falsy - the sentinel is
+                out = set(vals[-1])
+                for v in vals[:-1]:
+                    out |= (v - {"SRC"}) if self.unset_falsy else v
+                return out
+            if self.unset_falsy and vals[0] == {"SRC"}:
+                return {"SRC"}
+            return set().union(*vals)
+        return {"UNK"}
+
+    def test(self, e: ast.expr, env: dict, depth: int) -> "bool | None":
+        def is_sentinel(x: ast.expr) -> "bool | None":
+            vs = self.value(x, env, depth)
+            return True if vs == {"SRC"} else False if vs and all(v.startswith("FRESH:") for v in vs) else None
+
+        if isinstance(e, ast.UnaryOp) and isinstance(e.op, ast.Not):
+            t_ = self.test(e.operand, env, depth)
+            return None if t_ is None else not t_
+        if isinstance(e, ast.BoolOp):
+            ts = [self.test(v, env, depth) for v in e.values]
+            if isinstance(e.op, ast.And):
+                return False if any(t_ is False for t_ in ts) else None if any(t_ is None for t_ in ts) else True
+            return True if any(t_ is True for t_ in ts) else None if any(t_ is None for t_ in ts) else False
+        if isinstance(e, ast.Call) and norm(e.func) == "isinstance" and len(e.args) == 2:
+            kinds = [norm(x) for x in (e.args[1].elts if isinstance(e.args[1], ast.Tuple) else [e.args[1]])]
+            if kinds == ["Unset"]:
+                return is_sentinel(e.args[0])
+            if "Unset" not in kinds and self.value(e.args[0], env, depth) == {"SRC"}:
+                return False
+            return None
+        if isinstance(e, ast.Compare) and len(e.ops) == 1 and isinstance(e.ops[0], (ast.Is, ast.IsNot)):
+            l, r = e.left, e.comparators[0]
+            pos = isinstance(e.ops[0], ast.Is)
+            for a, b in ((l, r), (r, l)):
+                if norm(b) == "UNSET":
+                    t_ = is_sentinel(a)
+                    return None if t_ is None else (t_ == pos)
+                if norm(b) == "None" and self.value(a, env, depth) == {"SRC"}:
+                    return not pos
+            return None
+        if isinstance(e, (ast.Name, ast.NamedExpr)) and self.unset_falsy and self.value(e, env, depth) == {"SRC"}:
+            return False
+        return None
 
 
 class _Forwarding:
